@@ -46,8 +46,11 @@ impl<'a> StringLexer<'a> {
 
     /// (mostly just used by Iterator, but might be useful)
     pub fn next_lexeme(&mut self) -> Result<Option<u8>> {
+        // a loop, not a recursive call: a line continuation or an ignored backslash yields no lexeme and
+        // starts over (any number of them in a row must not grow the stack)
+        loop {
         let c = self.next_byte()?;
-        match c {
+        return match c {
             b'\\' => {
                 let c = self.next_byte()?;
                 Ok(
@@ -61,14 +64,14 @@ impl<'a> StringLexer<'a> {
                     b')' => Some(b')'),
                     b'\n' => {
                         // ignore end-of-line marker
-                        self.next_lexeme()?
+                        continue;
                     }
                     b'\r' => {
                         // ignore end-of-line marker
                         if let Ok(b'\n') = self.peek_byte() {
                             let _ = self.next_byte();
                         }
-                        self.next_lexeme()?
+                        continue;
                     }
                     b'\\' => Some(b'\\'),
 
@@ -89,7 +92,7 @@ impl<'a> StringLexer<'a> {
                         }
                         if self.get_offset() == _start {
                             // not an escape of Table 3: ignore the backslash, keep the character
-                            return self.next_lexeme();
+                            continue;
                         }
                         Some(char_code as u8)
                     }
@@ -123,6 +126,7 @@ impl<'a> StringLexer<'a> {
 
             c => Ok(Some(c))
 
+        };
         }
     }
 
